@@ -14,7 +14,7 @@ import json
 from automata.fa.dfa import DFA
 
 from harness import gen, langoracle
-from harness.common import Ctx, Toks, call, enc_dfa, sym_names, toks
+from harness.common import guarded, Ctx, Toks, call, enc_dfa, sym_names, toks
 from harness.ops.C04 import reachable_count
 
 LEVEL = "proof"
@@ -88,6 +88,7 @@ def is_finite(d: DFA) -> bool:
     return not any(color.get(q, 0) == 0 and dfs(q) for q in useful)
 
 
+@guarded
 def do_cmp(ctx: Ctx, A: DFA, B: DFA, origin: str):
     drv = ctx.driver("drv_dfa_ops")
     encA, stA, sy = enc_dfa(A)
@@ -121,6 +122,7 @@ def do_cmp(ctx: Ctx, A: DFA, B: DFA, origin: str):
         ctx.corr_diff("DFA_CMP", replay, impl, mod)
 
 
+@guarded
 def do_emptyfin(ctx: Ctx, A: DFA, origin: str):
     drv = ctx.driver("drv_dfa_ops")
     encA, stA, sy = enc_dfa(A)
@@ -163,7 +165,7 @@ def variants(rng, A: DFA):
         if len(names) == len(A.states):
             m = dict(zip(A.states, names))
             out.append(("equal_renamed", DFA(states=set(m.values()), input_symbols=A.input_symbols,
-                                             transitions={m[q]: {a: m[t] for a, t in row.items()} for q, row in A.transitions.items()},
+                                             transitions={m[q]: {a: m[t] for a, t in row.items()} for q, row in A.transitions.items() if q in m},
                                              initial_state=m[A.initial_state], final_states={m[q] for q in A.final_states},
                                              allow_partial=A.allow_partial)))
     elif k < 0.75:
